@@ -123,7 +123,10 @@ PROPS['C01'] = dict(
          'bodies of 6 content classes) + (per-datagram fault tape: drop/duplicate x1-3/delay up to 3 s, optionally one direction '
          'only, black-outs) for 1..40 virtual s, then a clean drain. Oracle: every tun write equals a packet read earlier '
          'from the tun device of a different instance. non-trivial iff the handshake completed, >=1 delivered packet needed '
-         '>=2 fragments and >=1 fault decision hit; distinct = hash of the choice tape',
+         '>=2 fragments and >=1 fault decision hit. One case in six instead: real server + scripted conforming sender (<= 80 actions: pings, '
+         'upstream packets <= 600 bytes fragment by fragment, re-deliveries, freezes) whose history contains seven consecutive packets lost '
+         'entirely (3-bit sequence number comes round) followed by a crafted two-fragment packet; oracle: every server tun write is a packet '
+         'the sender completed; non-trivial iff >= 1 such wrap happened. distinct = hash of the choice tape',
     engine_text='rapidcheck over choice tapes; simnet hosting real iodined + real iodine clients; ASan+UBSan; crafted adversarial packets (zlib stream of another packet at the second fragment\'s offset inside an incompressible packet)',
     bounds='<= 3 clients, <= 30 offers, packets <= 6000+24 bytes, <= 40 virtual s of faults, delays <= 3 s',
     trusted_base=TB_SIM,
